@@ -1,50 +1,128 @@
-"""C02 - requests never modify inputs or handed-out values (coresim part).
+"""C02 - requests never modify inputs or handed-out values.
 
-Registry of every array the user supplied (inputs, helper arguments) or an
-earlier request returned, each with a checksum at hand-out time, a strong
-reference (so it outlives eviction) and the read-only flag set, which turns a
-silent in-place write into an exception that names the source line.
-The over_time / save_data / read_data argument clauses are monitored inside
-the C14 / C13 / C12 workloads (see those modules).  DESIGN 4 / C02.
+Three workloads, chosen per run by the seed (run['kind']):
+
+  core  (70 %)  the C01 request histories (coresim) with a registry of every
+                array the user supplied (inputs, helper arguments) or an
+                earlier request returned - checksum at hand-out time, strong
+                reference (outlives eviction), read-only flag (turns a silent
+                in-place write into an exception naming the source line).
+                TOUCH_ALL ops (the user looks at everything cached) make all
+                cached arrays count as handed out.
+  time  (15 %)  the C14 over_time workload; only the clauses "per-time-step
+                arrays and argument lists passed to the driver are left
+                untouched" are reported here (mutation:*, args_mutated:*,
+                input_column_not_preserved).
+  io    (15 %)  the C13 save_data/read_data workload; only args_mutated:*
+                is reported here.
+
+DESIGN 4 / C02.
 """
 from . import _core_common as cc
 
 PROP = 'C02'
-ENGINE = 'coresim'
+ENGINE = 'coresim+timesim+iosim'
 HASH_CLASSES = 1
 RUNS = {'quick': 1200, 'thorough': 30000}
-RUN_TIMEOUT = 240
-DETERMINISM_RUNS = 8
-RULE = ("Same generator as C01 (non-flat, mostly non-vacuum spacetimes; "
-        "guard-aware histories; seeded eviction knobs), biased to 'request "
-        "A, keep the array, request something that consumes A'. After every "
-        "op the checksums of ALL arrays supplied or returned so far are "
-        "recomputed; all of them are also flagged read-only. Non-trivial: "
-        ">=3 result arrays were being monitored when a later op ran AND an "
-        "eviction fired. Distinct = as C01.")
+RUN_TIMEOUT = 300
+DETERMINISM_RUNS = 10
+RULE = ("70% of runs: generator of C01 (non-flat, mostly non-vacuum "
+        "spacetimes; seeded eviction knobs) biased to 'request A, keep the "
+        "array, request something that consumes A' (consumer chains, deep "
+        "keys after TOUCH_ALL, both tetrads equally); after every op the "
+        "checksums of ALL arrays supplied or returned so far are recomputed "
+        "and all of them are flagged read-only. 15%: C14's over_time "
+        "workload (input columns registered read-only + checksummed, "
+        "vars/estimates/data arguments digested before/after each call). "
+        "15%: C13's save_data/read_data workload (argument digests). "
+        "Non-trivial: core: >=3 result arrays monitored when a later op ran "
+        "and an eviction fired; time: >=2 steps and >=1 estimate; io: >=1 "
+        "save with explicit vars. Distinct = the workload's own measure.")
 PROBES = ['eviction', 'cache_hit_request', 'arrays_monitored',
-          'helper_args_monitored']
-COMPONENTS = cc.COMPONENTS
+          'helper_args_monitored', 'touch_all', 'kind_core', 'kind_time',
+          'kind_io']
+COMPONENTS = dict(cc.COMPONENTS)
+COMPONENTS['aurel.time.over_time, aurel.reading.save_data/read_data'] = \
+    'real (C14 / C13 workloads, mutation oracles only)'
 ASSUMPTIONS = [
     'setting the read-only flag on arrays that were handed to / returned by '
     'the library does not change any value the library computes (it only '
     'turns an in-place write into an exception)',
     'arrays cached internally but never returned to the caller are outside '
-    'this property (their corruption is C01\'s subject)']
+    'this property (their corruption is C01\'s subject); TOUCH_ALL ops hand '
+    'them out legitimately (pure cache hits)']
+
+_KEEP_TIME = ('mutation:', 'args_mutated:', 'input_column_not_preserved')
+_KEEP_IO = ('args_mutated:',)
 
 
 def generate(rng, tier):
-    return cc.generate(rng, tier, 'C02')
+    kind = rng.child('c02kind').weighted([('core', 70), ('time', 15),
+                                          ('io', 15)])
+    if kind == 'time':
+        from . import C14
+        run = C14.generate(rng, tier)
+    elif kind == 'io':
+        from . import C13
+        run = C13.generate(rng, tier)
+    else:
+        run = cc.generate(rng, tier, 'C02')
+    run['kind'] = kind
+    return run
 
 
-fixup = cc.fixup
-simplify = cc.simplify
+def fixup(run):
+    if run.get('kind') == 'time':
+        from . import C14
+        r = C14.fixup(run)
+    elif run.get('kind') == 'io':
+        from . import C13
+        r = C13.fixup(run)
+    else:
+        r = cc.fixup(run)
+    if r is not None:
+        r['kind'] = run.get('kind', 'core')
+    return r
+
+
+def simplify(run):
+    kind = run.get('kind', 'core')
+    if kind == 'time':
+        from . import C14
+        gen = C14.simplify(run)
+    elif kind == 'io':
+        from . import C13
+        gen = C13.simplify(run)
+    else:
+        gen = cc.simplify(run)
+    for c in gen:
+        c['kind'] = kind
+        yield c
 
 
 def execute(run):
-    from .. import coresim
-    eng = coresim.Engine(run, 'C02', {'C02'})
-    eng.execute()
-    return eng.result({'C02'}, nontrivial=(
-        getattr(eng, 'n_monitored', 0) - len(eng.world.data) >= 3
-        and eng.faults.get('eviction')))
+    kind = run.get('kind', 'core')
+    if kind == 'time':
+        from . import C14
+        res = C14.execute(run)
+        res['violations'] = [v for v in res['violations']
+                             if v['sig'].startswith(_KEEP_TIME)]
+        res['nontrivial'] = run['nsteps'] >= 2 and bool(run['ests'])
+    elif kind == 'io':
+        from . import C13
+        res = C13.execute(run)
+        res['violations'] = [v for v in res['violations']
+                             if v['sig'].startswith(_KEEP_IO)]
+        res['nontrivial'] = any(o['op'] == 'save' and o['vars']
+                                for o in run['ops'])
+    else:
+        from .. import coresim
+        eng = coresim.Engine(run, 'C02', {'C02'})
+        eng.execute()
+        res = eng.result({'C02'}, nontrivial=(
+            getattr(eng, 'n_monitored', 0) - len(eng.world.data) >= 3
+            and eng.faults.get('eviction')))
+    res.setdefault('probes', {})
+    res['probes']['kind_' + kind] = 1
+    res['state_sig'] = kind + ':' + str(res.get('state_sig'))
+    return res
